@@ -146,7 +146,7 @@ int real_waitpid(int pid, int* status, int options) {
     if (r > 0 && g_forks == 2 && g_real_n < 64) { g_real_status[g_real_n++] = *status; g_real_pid_x = pid; }
     return r;
 }
-int g_how, g_arg, g_where;       // how: 0 signal, 1 _exit, 2 failing check, 3 self stop
+int g_how, g_arg, g_where;       // how: 0 signal, 1 _exit, 2 failing check, 3 self stop, 4 C-style (longjmp) failing check, 5 failure reported by a plugin through the result
 void die_here(int where) {
     if (where != g_where) return;
     switch (g_how) {
@@ -154,16 +154,18 @@ void die_here(int where) {
     case 1: _exit(g_arg);
     case 2: FAIL("scripted failure in the child");
     case 3: raise(SIGSTOP); break;
+    case 4: UtestShell::getCurrent()->fail("scripted C-style failure in the child", "child.c", 1, TestTerminatorWithoutExceptions());
+    default: break;
     }
 }
 void x_setup() { die_here(0); } void x_body() { g_marks->ran[1]++; die_here(1); } void x_teardown() { die_here(2); }
 struct DyingPlugin : TestPlugin {
     DyingPlugin() : TestPlugin("dying") {}
-    void preTestAction(UtestShell& t, TestResult&) override { if (t.getName() == "X") die_here(3); }
-    void postTestAction(UtestShell& t, TestResult&) override { if (t.getName() == "X") die_here(4); }
+    void preTestAction(UtestShell& t, TestResult& r) override { if (t.getName() == "X") { die_here(3); if (g_how == 5 && g_where == 3) r.addFailure(TestFailure(&t, "plugin.cpp", 3, "reported by a plugin")); } }
+    void postTestAction(UtestShell& t, TestResult& r) override { if (t.getName() == "X") { die_here(4); if (g_how == 5 && g_where == 4) r.addFailure(TestFailure(&t, "plugin.cpp", 4, "reported by a plugin")); } }
 };
 const char* WHERE[] = {"setup", "body", "teardown", "plugin-pre", "plugin-post"};
-const char* HOW[] = {"signal", "_exit", "failing-check", "self-stop"};
+const char* HOW[] = {"signal", "_exit", "failing-check", "self-stop", "failing-C-check", "plugin-reported-failure"};
 
 bool default_terminates(int s) { return !(s == SIGCHLD || s == SIGCONT || s == SIGURG || s == SIGWINCH || s == SIGSTOP || s == SIGTSTP || s == SIGTTIN || s == SIGTTOU); }
 
@@ -203,7 +205,7 @@ void run_real(int how, int arg, int where) {
     else for (size_t i = 0; i < got.size(); i++) if (got[i].find(want_text[i]) == std::string::npos) { vf::fail("failures/wrong-message", desc + ": failure '" + got[i] + "' should mention '" + want_text[i] + "'"); break; }
     // SIGTSTP/SIGTTIN/SIGTTOU are discarded by the kernel for orphaned process groups: environment dependent, status-driven only
     bool env_dependent = how == 0 && (arg == SIGTSTP || arg == SIGTTIN || arg == SIGTTOU);
-    bool must_fail = (how == 0 && default_terminates(arg)) || (how == 1 && arg != 0) || how == 2 || how == 3 || (how == 0 && arg == SIGSTOP);
+    bool must_fail = (how == 0 && default_terminates(arg)) || (how == 1 && arg != 0) || how == 2 || how == 3 || how == 4 || how == 5 || (how == 0 && arg == SIGSTOP);
     if (env_dependent) must_fail = !got.empty();
     if (must_fail && got.empty()) vf::fail("real/death-not-reported", desc + ": the test died but the parent recorded no failure");
     if (!must_fail && !got.empty()) vf::fail("real/normal-completion-reported", desc + ": the child completed normally but a failure was recorded: " + got[0]);
@@ -268,14 +270,16 @@ int main(int argc, char** argv) {
     // ---- layer B: real children (no sanitizer: exact signal semantics)
     if (plain) {
         PlatformSpecificFork = real_fork; PlatformSpecificWaitPid = real_waitpid;
-        long N = 5 * (31 + 256 + 1 + 1);
-        vf::info("realfork.bound", "crash point in {setup, body, teardown, plugin pre, plugin post} x {raise(1..31), _exit(0..255), failing check, raise(SIGSTOP)}: real fork, real waitpid, status words recorded");
+        long N = 5 * (31 + 256 + 1 + 1 + 1 + 1);
+        vf::info("realfork.bound", "crash point in {setup, body, teardown, plugin pre, plugin post} x {raise(1..31), _exit(0..255), failing check, raise(SIGSTOP), C-style failing check (test phases), failure reported by a plugin through the result (plugin actions)}: real fork, real waitpid, status words recorded");
         vf::section_index("realfork", N, [&](long idx) {
             vf::Radix r(idx); int where = (int)r.take(5); long k = r.idx;
             if (k < 31) run_real(0, (int)k + 1, where);
             else if (k < 31 + 256) run_real(1, (int)(k - 31), where);
             else if (k == 31 + 256) run_real(2, 0, where);
-            else run_real(3, 0, where);
+            else if (k == 31 + 256 + 1) run_real(3, 0, where);
+            else if (k == 31 + 256 + 2) { if (where <= 2) run_real(4, 0, where); }
+            else { if (where >= 3) run_real(5, 0, where); }
         });
         vf::require_outcomes("realfork", 5);
     } else {
